@@ -77,6 +77,21 @@ void slu_mt_verif_event(int kind, int pnum, long a, long b, long c) {
     else if (r < (unsigned)(perturb_level * 12)) usleep(1 + (st >> 40) % 50);
 }
 
+/* ---- allocation fault injection (library built with -include vf_alloc.h; unused otherwise) ---- */
+#include <malloc.h>
+static long vf_count = 0, vf_failat = 0, vf_failed = 0; static char vf_first_fail_site[128] = "-";
+void *vf_malloc(size_t size, const char *file, int line) {
+    long k = __atomic_add_fetch(&vf_count, 1, __ATOMIC_SEQ_CST);
+    if (vf_failat > 0 && k >= vf_failat) {
+        if (__atomic_add_fetch(&vf_failed, 1, __ATOMIC_SEQ_CST) == 1) { const char *b = strrchr(file, '/'); snprintf(vf_first_fail_site, sizeof vf_first_fail_site, "%s:%d", b ? b + 1 : file, line); }
+        return NULL;
+    }
+    return malloc(size);
+}
+void vf_free(void *p) { free(p); }
+void vf_abort(const char *msg) { fprintf(stderr, "VF_ABORT %s\n", msg); fflush(stderr); _exit(77); }
+static int count_fds(void) { int c = 0; DIR *d = opendir("/proc/self/fd"); if (!d) return -1; struct dirent *e; while ((e = readdir(d))) if (e->d_name[0] != '.') c++; closedir(d); return c - 1; }
+
 static FILE *in, *out;
 static char tok[4096];
 static int next_tok(void) { return fscanf(in, "%4095s", tok) == 1; }
@@ -195,6 +210,8 @@ int main(int argc, char **argv) {
     while (next_tok()) {
         if (!strcmp(tok, "ienv")) { for (int i = 1; i <= 8; i++) ienv_tab[i] = rd_int(); }
         else if (!strcmp(tok, "perturb")) { perturb_level = rd_int(); perturb_seed = (unsigned long long)rd_int(); }
+        else if (!strcmp(tok, "failat")) { vf_failat = rd_int(); vf_count = 0; vf_failed = 0; strcpy(vf_first_fail_site, "-"); }
+        else if (!strcmp(tok, "heap")) { next_tok(); struct mallinfo2 mi = mallinfo2(); fprintf(out, "heap %s %zu %d %d\n", tok, (size_t)mi.uordblks, count_threads_once(), count_fds()); }
         else if (!strcmp(tok, "evlog")) { evlog_on = rd_int(); evlog_dfs = rd_int(); if (evlog_on && !evlog) { evcap = 4000000; evlog = malloc(sizeof(ev_t) * evcap); } }
         else if (!strcmp(tok, "mat")) {
             int s = rd_int(); next_tok(); int nr = !strcmp(tok, "NR"); int_t n = rd_int(), nnz = rd_int();
@@ -242,6 +259,7 @@ int main(int argc, char **argv) {
             int t1 = count_threads_settled(t0);
             fprintf(out, "op gssv\ninfo %ld\nxerbla %d %s %d\nthreads %d %d\n", (long)info, xerbla_calls, xerbla_calls ? xerbla_name : "-", xerbla_arg, t0, t1);
             dump_events();
+            fprintf(out, "allocs %ld %ld %s\n", vf_count, vf_failed, vf_first_fail_site);
             report_A_B(ai, bi);
             if (info >= 0 && xerbla_calls == 0 && info <= a->n) { haveLU = 1; userwork_len = 0; }
             pr_ints("perm_r", perm_r, a->n); pr_ints("perm_c", perm_c, a->n);
@@ -275,6 +293,7 @@ int main(int argc, char **argv) {
             int t1 = count_threads_settled(t0);
             fprintf(out, "op gssvx\ninfo %ld\nxerbla %d %s %d\nthreads %d %d\n", (long)info, xerbla_calls, xerbla_calls ? xerbla_name : "-", xerbla_arg, t0, t1);
             fprintf(out, "equed %d %d\nusepr_after %d\n", (int)equed_in, (int)equed, (int)opts.usepr);
+            fprintf(out, "allocs %ld %ld %s\n", vf_count, vf_failed, vf_first_fail_site);
             dump_events();
             if (xerbla_calls == 0 && fact != FACTORED && lwork != -1 && (info == 0 || (info > 0 && info <= n + 1))) haveLU = 1;
             report_A_B(ai, bi);
